@@ -123,7 +123,7 @@ class Case:
 
     def ty(self, t):
         b = BASE_T.get(t["b"]) or self.cscoped(t["c"])
-        return {"val": "%s", "ptr": "%s *", "cptr": "const %s *", "ref": "%s &", "cref": "const %s &"}[t["m"]] % b
+        return {"val": "%s", "ptr": "%s *", "cptr": "const %s *", "ref": "%s &", "cref": "const %s &", "rref": "%s &&"}[t["m"]] % b
 
     # ---- declarations ------------------------------------------------------------------------
     def member_text(self, c, j):
@@ -147,6 +147,14 @@ class Case:
             return "%s %s[2];" % (self.cname(m["rc"]), n)
         if k == "getter":
             return "int %s() const;" % n
+        if k == "getter2":
+            return "int %s(int, int) const;" % n
+        if k == "seqbad":
+            return "int %sn() const; int %s(float f) const;" % (n, n)
+        if k == "tctor":
+            return "template<class T> %s(const T &p1);" % C
+        if k == "enumz":
+            return "enum %s {\n  %sv = sizeof(int),\n  %sw\n};" % (self.ename(c, j), n, n)
         if k == "seqget":
             return "int %sn() const; int %s(int i) const;" % (n, n)
         if k == "mprop":
@@ -210,12 +218,14 @@ class Case:
 
     DEFAULT = {"int": "7", "double": "1.5", "bool": "true", "cls": "nullptr"}
 
-    def sig_text(self, s, n, C=None):
+    def sig_text(self, s, n, C=None, redecl=None):
+        """redecl: a later declaration [n, cm] of the same function - its own choice of naming, no defaults"""
         ps = []
         for q, p in enumerate(s["ps"], 1):
             t = self.ty(p["t"])
-            x = "%s p%d" % (t, q) if p["n"] else t
-            if p["d"]:
+            named = p["n"] if redecl is None else redecl["n"]
+            x = "%s p%d" % (t, q) if named else t
+            if p["d"] and redecl is None:
                 x += " = " + self.DEFAULT[p["t"]["b"]]
             ps.append(x)
         role = s["role"]
@@ -289,7 +299,13 @@ class Case:
         if k == "tdefc":
             return "typedef %s %s;" % (self.refname(d["rc"], 0), n)
         if k == "sig":
-            return self.sig_text(d["sig"], n)
+            # (role "static" = no `this`; a namespace-scope function is written without the keyword)
+            L = [self.sig_text(d["sig"], n).replace("static ", "", 1)]
+            for r, rd in enumerate(d.get("re", []), 1):
+                if rd["cm"]:
+                    L.append(self.doc(rd["cm"], "%s_r%d" % (n, r)))
+                L.append(self.sig_text(d["sig"], n, redecl=rd).replace("static ", "", 1))
+            return "\n".join(L)
         raise ValueError(k)
 
     def wrap(self, text, region, ns, cmt=None):
@@ -310,6 +326,13 @@ class Case:
                 k = self.cls[o["id"] - 1]
                 if k["file"] == f:
                     L.append(self.wrap(self.class_text(o["id"]), k["region"], k["ns"], self.doc(k.get("cm"), self.cname(o["id"]))))
+                    # out-of-class definitions of member functions (later declarations of the same function)
+                    for j, m in enumerate(k["members"], 1):
+                        for r, rd in enumerate(m.get("re", []), 1):
+                            if rd["cm"]:
+                                L.append(self.doc(rd["cm"], "%s_r%d" % (self.mname(o["id"], j), r)))
+                            L.append("inline " + self.sig_text(m["sig"], self.cscoped(o["id"]) + "::" + self.mname(o["id"], j),
+                                                               redecl=rd)[:-1] + " {}")
             elif o["t"] == "a":
                 if self.aliases[o["id"] - 1]["file"] == f:
                     L.append(self.alias_text(o["id"]))
